@@ -376,6 +376,11 @@ func genWalkScn(r *Rng, nblocks int) *WalkScn {
 		}
 	}
 	ws.Tape = sb.String()
+	if n > 0 && r.Chance(0.06) {
+		// the callback at one position leaves Walk by panicking
+		at := r.Intn(n)
+		ws.Tape = ws.Tape[:at] + "P" + ws.Tape[at+1:]
+	}
 	if r.Chance(0.2) {
 		for i, d := 0, r.Range(1, 4); i < d; i++ {
 			ws.RootPath = append(ws.RootPath, r.Intn(6))
@@ -675,6 +680,9 @@ func evaluate(s *Scenario, st *runStats) (fail *Failure) {
 			st.Outcome = hashString(histDigest(obs.Hist))
 			st.Faults["prune"] += obs.Prunes
 			st.Faults["abort"] += obs.Aborts
+			if obs.Unwound {
+				st.Faults["callback_left_walk_by_panicking"]++
+			}
 			st.Faults["reentrant_walk"] += obs.NestedWalks
 			if s.Walk.PreNil {
 				st.Probes["pre_nil"]++
@@ -683,7 +691,7 @@ func evaluate(s *Scenario, st *runStats) (fail *Failure) {
 				st.Probes["post_nil"]++
 			}
 			st.Probes["view_"+s.Walk.View]++
-			nontrivial = obs.Prunes+obs.Aborts+obs.NestedWalks > 0 || s.Walk.View != "default" || s.Walk.PreNil || s.Walk.PostNil
+			nontrivial = obs.Prunes+obs.Aborts+obs.NestedWalks > 0 || obs.Unwound || s.Walk.View != "default" || s.Walk.PreNil || s.Walk.PostNil
 		}
 	case "C19":
 		var f *Failure
